@@ -335,7 +335,8 @@ Definition PhiN (st : mstate) (m : key) (ts : tstate frame) : Prop :=
   last_knode (estack ts) = true /\
   ((exists r, ts = TDone r) <-> event_is_set m st = true) /\
   (event_is_set m st = true -> exists_result m (st_store st) = true \/ exists e, ts = TDone (SThrow e)) /\
-  (forall d n f r s, ts = TReady (FNodeStart d n f :: r) s -> s = SGo).
+  (forall f r s, ts = TReady (f :: r) s -> is_start_frame f = true -> s = SGo) /\
+  (head_ok (estack ts) = true -> exists_processed m (st_store st) = true).
 
 Definition PhiE (st : mstate) (i : idt) (ts : tstate frame) : Prop :=
   (fst (fst i) = main_tid -> snd (fst i) = TNMain) /\ (forall m, snd (fst i) = TNNode m -> PhiN st m ts).
@@ -347,13 +348,13 @@ Proof. intros A B [H1 H2]. split; [exact H1|]. intros m Hm. apply (PhiN_ext st);
 
 Lemma PhiE_wake st : wake_closed (PhiE st).
 Proof.
-  intros i w k [H0 H]. split; [exact H0|]. intros m Hm. destruct (H m Hm) as (A & B & C & D & E & F & G0 & H1 & I0).
+  intros i w k [H0 H]. split; [exact H0|]. intros m Hm. destruct (H m Hm) as (A & B & C & D & E & F & G0 & H1 & I0 & J0).
   unfold PhiN. cbn [estack sig_of] in *. repeat split; auto.
   - discriminate.
   - intros [r Hr]. discriminate Hr.
   - intros He. apply G0 in He. destruct He as [r Hr]. discriminate Hr.
   - intros He. destruct (H1 He) as [Hr|[e He']]; [left; exact Hr|discriminate He'].
-  - intros d n f r s Hs. inversion Hs. reflexivity.
+  - intros f r s Hs _. inversion Hs. reflexivity.
 Qed.
 
 Lemma last_cons_default {A} (f : A) k d : last (f :: k) d = last k f.
@@ -382,7 +383,7 @@ Section ExecInv.
     PhiN st m (TReady (fr :: rest) sg) ->
     PhiN (fst (step_frame P t fr sg st)) m (nstate rest (snd (step_frame P t fr sg st))).
   Proof.
-    intros Hb Hh Hf0 Hnm (O1 & O1' & O2 & O2' & O3 & O9 & O4 & O7 & O10).
+    intros Hb Hh Hf0 Hnm (O1 & O1' & O2 & O2' & O3 & O9 & O4 & O7 & O10 & O11).
     destruct (b_cur _ _ _ Hb) as [x0' [Hf0' [Hk [Hs [Ho [Hc _]]]]]]. rewrite Hf0 in Hf0'. inversion Hf0'; subst x0'. clear Hf0'.
     rewrite Hnm in Ho. cbn [plain_stack forallb] in Hk, Ho. apply andb_true_iff in Hk. destruct Hk as [Kf Kr]. apply andb_true_iff in Ho. destruct Ho as [Of Or].
     pose proof (b_ps _ _ _ Hb) as Hps. pose proof Hps as Hps'. unfold PS in Hps'. destruct Hps' as [_ [Hrh _]].
@@ -445,7 +446,7 @@ Section ExecInv.
       intros [r Hr]. destruct (nstate_done _ _ _ _ Hdo Hr) as [Hd ->]. cbn [last_knode last] in O9.
       destruct (Hkr r Kf Hs Hps O9 Hh Hd) as [n [Hse _]].
       + intros ->. apply O2'. reflexivity.
-      + intros d0 n f ->. eapply O10. reflexivity.
+      + intros d0 n f ->. apply (O10 _ _ _ eq_refl). reflexivity.
       + unfold event_is_set. rewrite Hev, Hse, event_add.
         assert (n = m) by (apply Hkey; apply (step_event_key _ _ _ Hse)). subst n. rewrite key_eqb_refl. reflexivity.
     - (* E8 <- *)
@@ -454,16 +455,29 @@ Section ExecInv.
       intros He. destruct (Hset He) as [s' [Hd [-> [Hse Hkn]]]].
       destruct (Hkr s' Kf Hs Hps Hkn Hh Hd) as [n [_ [[e ->]|Has']]].
       + intros ->. apply O2'. reflexivity.
-      + intros d0 n f ->. eapply O10. reflexivity.
+      + intros d0 n f ->. apply (O10 _ _ _ eq_refl). reflexivity.
       + right. exists e. rewrite Hd. reflexivity.
       + left. rewrite Hst. apply step_store_res_mono; [exact Hrh|]. apply O3. rewrite Has'. reflexivity.
     - (* E10 *)
-      intros d0 n f r s Hn.
-      assert (Hstk : dir_frames d ++ rest = FNodeStart d0 n f :: r) by (rewrite <- estack_nstate, Hn; reflexivity).
+      intros f r s Hn Hsf.
+      assert (Hstk : dir_frames d ++ rest = f :: r) by (rewrite <- estack_nstate, Hn; reflexivity).
       destruct (dir_frames d) as [|f' k''] eqn:Ed.
-      + cbn [app] in Hstk. subst rest. cbn [forallb is_start_frame negb] in O1'. discriminate O1'.
-      + cbn [app] in Hstk. inversion Hstk; subst f'. exfalso.
-        destruct St2 as [d1 [n1 [f1 Efr]]]; [reflexivity|]. subst fr. pose proof (O10 _ _ _ _ _ eq_refl) as Esg. subst sg. unfold d in Ed. cbn [step_frame snd dir_frames] in Ed. discriminate Ed.
+      + cbn [app] in Hstk. subst rest. cbn [forallb] in O1'. rewrite Hsf in O1'. discriminate O1'.
+      + cbn [app] in Hstk. inversion Hstk; subst f'.
+        destruct St2 as [d1 [n1 [f1 Efr]]]; [cbn [head_ok]; rewrite Hsf; reflexivity|]. subst fr.
+        pose proof (O10 _ _ _ eq_refl eq_refl) as Esg. subst sg. unfold d in Hn. cbn [step_frame snd nstate app] in Hn. inversion Hn. reflexivity.
+    - (* E1c: a node task that is past its first two frames has marked the node *)
+      intros Hh'. rewrite Hst.
+      destruct (is_start_frame fr) eqn:Efs.
+      + (* the running frame is one of the two start frames: signal SGo *)
+        pose proof (O10 _ _ _ eq_refl Efs) as Esg. subst sg.
+        destruct fr; try discriminate Efs.
+        * (* FNodeStart *) exfalso. unfold d in Hh'. cbn [step_frame snd dir_frames app head_ok is_start_frame negb] in Hh'. discriminate Hh'.
+        * (* FExecStart *) cbn [step_store]. rewrite (Hkey n eq_refl).
+          destruct (exists_processed m (st_store st)) eqn:Ep; [exact Ep|]. rewrite processed_set, key_eqb_refl. reflexivity.
+      + assert (Hp : exists_processed m (st_store st) = true) by (apply O11; cbn [estack head_ok]; rewrite Efs; reflexivity).
+        unfold step_store. destruct fr; try exact Hp; destruct sg; try exact Hp.
+        destruct (exists_processed n (st_store st)); [exact Hp|]. rewrite processed_set, Hp. apply orb_true_r.
   Qed.
 
   Definition globE (st : mstate) : Prop := forall m, event_is_set m st = true -> In m (node_names st).
@@ -540,7 +554,7 @@ Section ExecInv.
         * intros [r1 Hr1]. discriminate Hr1.
         * intros He. exfalso. apply Hnot. apply GE. exact He.
         * intros He. exfalso. apply Hnot. apply GE. exact He.
-        * intros d1 n1 f1 r1 s1 Hs1. inversion Hs1. reflexivity.
+        * intros f1 r1 s1 Hs1 _. inversion Hs1. reflexivity.
       + (* the other tasks *)
         intros y ts Hy Hne [A B]. split; [exact A|]. intros m Em. specialize (B m Em).
         destruct (tname_seqb (t_name x0) (TNNode m)) eqn:Et.
